@@ -48,14 +48,19 @@ func zzSameDen(a, b *common.ConnectionSet, x int64) bool {
 func zzC16World() []parser.K8sObject {
 	p, e := zzPortVar("np.p"), zzPortVar("np.e")
 	vf_Assume(p <= e)
+	withIngress := vf_Choose("withIngress", 3) // 1: an Ingress towards ns1/a (blocked by the policy); 2: also towards ns2/a and xns1/a (same name)
+	var web []corev1.ContainerPort
+	if withIngress == 2 {
+		web = []corev1.ContainerPort{{ContainerPort: 8080}}
+	}
 	objs := []parser.K8sObject{
 		zzDeployObj("ns1", "a", map[string]string{"app": "a"}, []corev1.ContainerPort{{ContainerPort: 8080}}),
 		zzDeployObj("ns1", "b", map[string]string{"app": "b"}, nil),
-		zzDeployObj("ns2", "a", map[string]string{"app": "a2"}, nil),
+		zzDeployObj("ns2", "a", map[string]string{"app": "a2"}, web),
 		zzDeployObj("ns2", "c", map[string]string{"app": "c"}, nil),
 		// names related by suffix / shared by two kinds must not be confused by the filter
 		zzDeployObj("ns1", "ba", map[string]string{"app": "ba"}, nil),
-		zzDeployObj("xns1", "a", map[string]string{"app": "xa"}, nil),
+		zzDeployObj("xns1", "a", map[string]string{"app": "xa"}, web),
 		zzPodObj("ns1", "b", map[string]string{"app": "bpod"}, nil, ""),
 		zzNetpolObj("ns1", "np1", netv1.NetworkPolicySpec{
 			PodSelector: metav1.LabelSelector{MatchLabels: map[string]string{"app": "a"}},
@@ -63,13 +68,20 @@ func zzC16World() []parser.K8sObject {
 				Ports: []netv1.NetworkPolicyPort{zzPortRange(corev1.ProtocolTCP, p, e)}}},
 		}),
 	}
-	if vf_Choose("withIngress", 2) == 1 {
-		svc := &corev1.Service{ObjectMeta: metav1.ObjectMeta{Name: "svc", Namespace: "ns1"}}
-		svc.Spec.Selector = map[string]string{"app": "a"}
+	addIngress := func(ns, app string) {
+		svc := &corev1.Service{ObjectMeta: metav1.ObjectMeta{Name: "svc", Namespace: ns}}
+		svc.Spec.Selector = map[string]string{"app": app}
 		svc.Spec.Ports = []corev1.ServicePort{{Name: "web", Port: 80, TargetPort: *zzIntStrPtr(8080)}}
-		ing := &netv1.Ingress{ObjectMeta: metav1.ObjectMeta{Name: "ing", Namespace: "ns1"}}
+		ing := &netv1.Ingress{ObjectMeta: metav1.ObjectMeta{Name: "ing", Namespace: ns}}
 		ing.Spec.DefaultBackend = &netv1.IngressBackend{Service: &netv1.IngressServiceBackend{Name: "svc", Port: netv1.ServiceBackendPort{Number: 80}}}
 		objs = append(objs, parser.K8sObject{Kind: parser.Service, Service: svc}, parser.K8sObject{Kind: parser.Ingress, Ingress: ing})
+	}
+	if withIngress >= 1 {
+		addIngress("ns1", "a")
+	}
+	if withIngress == 2 {
+		addIngress("ns2", "a2")
+		addIngress("xns1", "xa")
 	}
 	return objs
 }
